@@ -8,7 +8,9 @@ equates a piece of the hand-written model (`MgpuModel/C08_Base.lean`, `C08_Regs.
 C02's `initS`) with the corresponding generated definition, for all arguments: a changed constant,
 struct field, cursor step or formula in the Go code breaks one of these proof obligations (not only
 the sampled correspondence). Integer widths are the model's: the generated expressions are over
-`Nat`; where the code computes in `uint32` the model wraps explicitly (`C02.wgCount`). -/
+`Nat`; the widths the code computes in are the model's (`C02.wgCount`: ceiling division in 64 bits,
+truncated to `uint32`), read from the conversions of the source text, which is pinned
+(`wgCountSources`, `hiddenBCSource`). -/
 namespace C08
 open Gen.C08Geo
 
@@ -70,8 +72,9 @@ theorem tie_wavefronts :
     for the first twelve fields (the last written field, work-group id Z, does not advance the cursor
     and nothing is written after it), the blocks that write a register are exactly the fields with a
     `Field.value`; and the table that `initS` is proved to be an instance of (`initS_is_gen`) carries
-    exactly these steps. The work-group-count expression of both modes is `(grid + wg − 1) / wg`
-    (the model evaluates it in `uint32`: `C02.wgCount`). -/
+    exactly these steps. The work-group-count expression of both modes is `(grid + wg − 1) / wg`,
+    computed in `uint64` and converted to `uint32` (source text pinned): for every typed packet that
+    is the model's `C02.wgCount`, without wrap-around. -/
 theorem tie_sgpr_steps :
     emuSgprSteps = timingSgprSteps ∧
     (emuSgprSteps.map (·.1)).take 13 =
@@ -84,10 +87,11 @@ theorem tie_sgpr_steps :
     (emuSgprSteps.map (·.2.2)).take 13 = Field.order.map (fun x => (x.value ⟨0, 0, 0, 0, 0, 0, 0, 0, 0, 0, 0⟩).isSome) ∧
     (emuSgprSteps.drop 13).map (·.2.2) = [false, false] ∧
     (∀ f a, (table f a).map (·.2.1) = Field.order.map fun x => 4 * x.size) ∧
-    (∀ g w, g + w - 1 < 4294967296 → C02.wgCount g w = emuWgCount g w ∧ C02.wgCount g w = timingWgCount g w) := by
-  refine ⟨by decide, by decide, by decide, by decide, by decide, by decide, fun _ _ => rfl, fun g w h => ?_⟩
-  unfold C02.wgCount emuWgCount timingWgCount C02.M32
-  rw [Nat.mod_eq_of_lt h]
+    wgCountSources = ["uint32((uint64(pkt.GridSizeX)+uint64(pkt.WorkgroupSizeX)-1)/uint64(pkt.WorkgroupSizeX))",
+                      "uint32((uint64(pkt.GridSizeX)+uint64(pkt.WorkgroupSizeX)-1)/uint64(pkt.WorkgroupSizeX))"] ∧
+    (∀ g w, g < 4294967296 → w < 65536 → C02.wgCount g w = emuWgCount g w ∧ C02.wgCount g w = timingWgCount g w) := by
+  refine ⟨by decide, by decide, by decide, by decide, by decide, by decide, fun _ _ => rfl, by decide, fun g w hg hw => ?_⟩
+  rw [wgCount_typed g w hg hw]
   exact ⟨rfl, rfl⟩
 
 /-- **tie_layouts.** The struct of the hidden kernel arguments and the dispatch packet, field by
@@ -95,10 +99,11 @@ theorem tie_sgpr_steps :
     `packet_layout_is_aql` then place them at the ABI offsets); block count and remainder formulas. -/
 theorem tie_layouts :
     hiddenFields = hiddenLayout ∧ packetFields = packetLayout ∧
-    (∀ g l, g + l - 1 < 4294967296 → C02.wgCount g l = hiddenBC g l) ∧ (∀ g l, hiddenRem g l = g % l) := by
-  refine ⟨by decide, by decide, fun g l h => ?_, fun _ _ => rfl⟩
-  unfold C02.wgCount hiddenBC C02.M32
-  rw [Nat.mod_eq_of_lt h]
+    hiddenBCSource = ["uint32((uint64(g)+uint64(l)-1)/uint64(l))"] ∧
+    (∀ g l, g < 4294967296 → l < 65536 → C02.wgCount g l = hiddenBC g l) ∧ (∀ g l, hiddenRem g l = g % l) := by
+  refine ⟨by decide, by decide, by decide, fun g l hg hl => ?_, fun _ _ => rfl⟩
+  rw [wgCount_typed g l hg hl]
+  rfl
 
 /-- non-vacuity: the generated definitions evaluate -/
 example : numWGInDimK 58 48 = 2 ∧ flattenedID 1 3 2 1 2 = 11 ∧ emuPacked 5 6 7 = 7346181 := by decide
